@@ -70,6 +70,9 @@ def judge(H):
             V.append(("future_never_resolved", f"future of {uid} (accepted at {f['t_acc']:.3f}) still pending at the end of the "
                       f"run (quiet since {H.get('t_quiet')}, run ended {H.get('t_end')})", {"uid": uid, "future": f}))
             continue
+        if oc == "cancelled" and f.get("app_cancelled"):
+            st["futures_cancelled_by_the_application"] = st.get("futures_cancelled_by_the_application", 0) + 1
+            continue
         if oc == "cancelled":
             V.append(("future_cancelled", f"future of {uid} ended cancelled", {"uid": uid}))
             continue
@@ -201,6 +204,7 @@ def run_shard(params):
         if P["start_seq"] is not None and P["start_seq"] > 2**31 - 100000:
             P["start_seq"] = rng.randrange(1, 2**30)
         P["use_send_batch"] = rng.random() < 0.3
+        P["app_cancels"] = P["use_send_batch"] and rng.random() < 0.5
         P["linger_ms"] = rng.choice([0, 5, 50, 50])      # more multi-record batches
         if params.get("force"):
             P.update(params["force"])
